@@ -39,3 +39,24 @@ Definition smismatches (cs : list scase) : list N :=
                  let '(p0, p1, p2) := @super_triangle FOps (map (fun p : float * float => fv2 (fst p) (snd p)) pts) in
                  negb (fsame (vx p0) ax && fsame (vy p0) ay && fsame (vx p1) bx && fsame (vy p1) by_
                        && fsame (vx p2) cx && fsame (vy p2) cy)) cs).
+
+(* slow reference cases: id, points (as given to Delaunay2dSlow), Some triangle list / None = error *)
+From Sdfx Require Import Algo.DelaunaySlow.
+Definition slcase := (N * list (float * float) * option (list (nat * nat * nat)))%type.
+Definition ntri_eqb (s t : nat * nat * nat) : bool :=
+  let '(a0, a1, a2) := s in let '(b0, b1, b2) := t in Nat.eqb a0 b0 && Nat.eqb a1 b1 && Nat.eqb a2 b2.
+Fixpoint ntris_eqb (l m : list (nat * nat * nat)) : bool :=
+  match l, m with
+  | [], [] => true
+  | x :: l', y :: m' => ntri_eqb x y && ntris_eqb l' m'
+  | _, _ => false
+  end.
+Definition slok (c : slcase) : bool :=
+  let '(id, pts, g) := c in
+  match @delaunay2d_slow FOps (map (fun p : float * float => fv2 (fst p) (snd p)) pts), g with
+  | Some l, Some m => ntris_eqb l m
+  | None, None => true
+  | _, _ => false
+  end.
+Definition slmismatches (cs : list slcase) : list N :=
+  map (fun c : slcase => let '(id, _, _) := c in id) (filter (fun c => negb (slok c)) cs).
